@@ -63,7 +63,7 @@ Proof. intros r. destruct r; reflexivity. Qed.
 
 Lemma c01_inst_ok : forall d t next o, prom_uniq d -> out_ok d t next o -> c01_inst d (o_subs o) (visible_resp (o_resp o)) = [].
 Proof.
-  intros d t next o U [Hs [_ [_ Hr]]]. unfold c01_inst.
+  intros d t next o U [Hs [_ [_ [Hr _]]]]. unfold c01_inst.
   assert (forallb (body_ok d) (match visible_resp (o_resp o) with Some x => resp_bodies x | None => [] end) = true) as ->.
   { destruct (o_resp o) as [r|]; cbn; [|reflexivity]. destruct r; cbn in *; try reflexivity;
       apply forallb_forall; intros pb Hpb; apply body_ok_of; auto; eapply Forall_forall; eassumption. }
